@@ -400,7 +400,7 @@ def case_stream(ctx, for_search=False):
         for arr in small_arrangements(["a", "1"], 6, with_box=False):
             for s, t in settings[:2]:
                 yield {"kind": "arr", "arr": arr, "sort": s, "trans": t}
-    for i in range(ctx.budget(3000, 40000, 55000 if ctx.tier == 'thorough' else 25000)):
+    for i in range(ctx.budget(3000, 30000, 45000 if ctx.tier == 'thorough' else 25000)):
         s, t = settings[i % 4]
         yield {"kind": "arr", "arr": random_arrangement(ctx.rng, big=(i % 5 == 0)), "sort": s, "trans": t}
 
